@@ -200,6 +200,9 @@ func runC11(c *Check) {
 	c.ruleStoredFlagsOnlyRise("R10")
 	c.ruleFlagRaisedBehindItsArgument("R11")
 	c.rulePooledBufferNotStored("R12", 8)
+	c.ruleUnconfirmedSetKeepsEveryEntry("R13")
+	c.whoMayCall("R14", "storage.SaveTxState", map[string]string{"spynode.(*Node).processUnconfirmedTx": "delivery of an unconfirmed tx and its conflicts", "spynode.(*Node).ProcessBlock": "confirmations and cancellations", "spynode.(*Node).provideBlock": "refeed", "spynode.(*Node).checkTxDelays": "safe after the delay"}, 6)
+	c.Touch(c.P.Fn("storage.FetchTxState"))
 	// the list helpers ProcessBlock uses to take a confirmed tx out of the unconfirmed list are part of the
 	// mechanism (the shared discipline rules run over them)
 	for _, k := range []string{"spynode.removeHash", "spynode.containsHash"} {
